@@ -17,7 +17,7 @@ def gen(tier, seed):
     for kind in ('R2', 'R3', 'SE2', 'SE3'):
         for n_poses in (2, 3, 4):
             for mode in ('some', 'landmark', 'isolated', 'all', 'first'):
-                for _ in range(6 if thorough else 1):
+                for _ in range(12 if thorough else 1):
                     n_lm = rnd.choice([1, 2])
                     c = GC.gen_graph(rnd, kind, n_poses, n_lm, rnd.choice([0, 1]), custom=False,
                                      fixed_mode=mode if mode in ('some', 'landmark', 'first') else 'some', fix_first=rnd.random() < 0.5)
